@@ -38,8 +38,8 @@ M = {
     "h1_spelled_h": (["C10", "C03"], [("selfies/utils/smiles_utils.py", '            builder.append("H")\n            builder.append(str(atom.h_count))', '            builder.append("H")\n            builder.append(str(atom.h_count) if atom.h_count > 1 else "")')]),
     "atom_class_leaks": (["C03", "C10"], [("selfies/utils/smiles_utils.py", "    isotope, element, chirality, h_count, charge, _ = m.groups()", "    isotope, element, chirality, h_count, charge, _cls = m.groups()\n    if _cls and not isotope:\n        isotope = _cls[1:]")]),
     # ---- C05
-    "prune_off_by_one": (["C05"], [("selfies/mol_graph.py", "            return any(used_electrons == v for v in valences)", "            return any(used_electrons >= v for v in valences)")]),
-    "greedy_takes_matched": (["C05"], [("selfies/utils/matching_utils.py", "        mate = next(i for i in graph[node] if matching[i] is None)", "        mate = next(i for i in graph[node] if matching[i] is None or i > node + 40)")]),
+    "prune_charge_sign": (["C05"], [("selfies/mol_graph.py", "            if any(used_electrons == v - atom.charge for v in valences):", "            if any(used_electrons == v + atom.charge for v in valences):")]),
+    "greedy_takes_matched": (["C05"], [("selfies/utils/matching_utils.py", "        mate = next(i for i in graph[node] if matching[i] is None)", "        mate = next(i for i in graph[node] if matching[i] is None or free_degrees[i] > 2)")]),
     "blossom_fallback_removed": (["C05"], [("selfies/utils/matching_utils.py", "    if (path is None) or (len(set(path)) != len(path)):", "    if False:")]),
     "implicit_aromatic_ring_bond": (["C05", "C03"], [("selfies/utils/smiles_utils.py", "    if latom.is_aromatic and ratom.is_aromatic and (bonds == (None, None)):\n        lorder = rorder = 1.5", "    if False:\n        lorder = rorder = 1.5")]),
     # ---- C06
@@ -48,7 +48,7 @@ M = {
     "capacity_cache_not_cleared": (["C06", "C11", "C12"], [("selfies/bond_constraints.py", "    get_bonding_capacity.cache_clear()\n", "")]),
     # ---- C07 / C12
     "alphabet_stale": (["C07", "C12"], [("selfies/bond_constraints.py", "    get_semantic_robust_alphabet.cache_clear()\n", "")]),
-    "alphabet_filter_ge": (["C07", "C12"], [("selfies/bond_constraints.py", "        if (m > c) or (a == \"?\"):", "        if (m >= c and c > 3) or (m > c) or (a == \"?\"):")]),
+    "alphabet_filter_ge": (["C07", "C12"], [("selfies/bond_constraints.py", "        if (m > c) or (a == \"?\"):", "        if (m >= c and c == 3) or (m > c) or (a == \"?\"):")]),
     "preset_returned_uncopied": (["C12"], [("selfies/bond_constraints.py", "    return dict(_PRESET_CONSTRAINTS[name])", "    return _PRESET_CONSTRAINTS[name]")]),
     "set_without_copy": (["C12", "C11"], [("selfies/bond_constraints.py", "        _current_constraints = dict(bond_constraints)", "        _current_constraints = bond_constraints")]),
     "assign_before_validation": (["C12"], [("selfies/bond_constraints.py", "        for key, value in bond_constraints.items():\n\n            # error checking for keys", "        _current_constraints = dict(bond_constraints)\n        for key, value in bond_constraints.items():\n\n            # error checking for keys")]),
@@ -65,7 +65,7 @@ M = {
     "nop_counts_in_budget": (["C13"], [("selfies/decoder.py", '            if symbol == "[nop]":\n                continue\n            if compatible:', '            if compatible:'),
                                         ("selfies/decoder.py", "        try:  # retrieve next symbol\n            index, symbol = next(symbol_iter)\n            n_derived += 1\n        except StopIteration:\n            break\n", "        try:  # retrieve next symbol\n            index, symbol = next(symbol_iter)\n            n_derived += 1\n        except StopIteration:\n            break\n        if symbol == \"[nop]\":\n            continue\n")]),
     # ---- C14
-    "len_counts_brackets_only": (["C14", "C15"], [("selfies/utils/selfies_utils.py", '    return selfies.count("[") + selfies.count(".")', '    return selfies.count("[") + selfies.count("].[")')]),
+    "len_counts_brackets_only": (["C14", "C15"], [("selfies/utils/selfies_utils.py", '    return selfies.count("[") + selfies.count(".")', '    return selfies.count("[")')]),
     # ---- C15
     "pad_off_by_one": (["C15", "C13"], [("selfies/utils/encoding_utils.py", '        selfies += "[nop]" * (pad_to_len - len_selfies(selfies))', '        selfies += "[nop]" * (pad_to_len - len_selfies(selfies) - (1 if "." in selfies else 0))')]),
     # ---- C17
